@@ -57,23 +57,23 @@ Example C02_demo :
     [[]; [(0,0);(0,0);(2,0)]; []; [(0,1);(2,0)]; []; []; []; [(1,0);(2,0);(0,1);(2,0);(0,2);(2,0)]].
 Proof. eexists. eexists. split; vm_compute; reflexivity. Qed.
 
-(* Unconditional in the space of C01 (rollback mode, dense saving, no spectators, nobody disconnects;
+(* Unconditional in the space of C01 (rollback mode, dense saving, any number of spectators, nobody disconnects;
    local players with one common input delay d, remote players whose inputs arrive in frame order
    while their ring has room; [op_ok] decides membership on the current state, [srun_in] is [srun]
    that answers Err at the first operation outside the space): for EVERY operation sequence NO assert
    of the session core fires - the run is not Panic - and when it stays inside the space the request
    lists of all its calls are executable one after the other, ending at current_frame(). *)
 Theorem C02_no_assert_fires_in_space :
-  forall (predict : Z -> Z) (n w d : Z) (kinds : list pkind) (eps : list (list Z)) (ops : list sop),
+  forall (predict : Z -> Z) (n w d : Z) (kinds : list pkind) (eps : list (list Z)) (nspec : nat) (ops : list sop),
   1 <= w -> 0 <= d -> w + d + 3 <= INPUT_QUEUE_LENGTH -> 0 < n -> Z.of_nat (length kinds) = n -> players_only kinds ->
-  let p0 := session_start n w false d kinds eps 0 in
+  let p0 := session_start n w false d kinds eps nspec in
   srun_in predict p0 ops = Err \/
   exists p outs g, srun_in predict p0 ops = Ok (p, outs) /\ srun predict p0 ops = Ok (p, outs) /\
     exec_outs w (game0 w) outs = Some g /\ gframe g = s_current (ps_sync p).
 Proof.
-  intros predict n w d kinds eps ops Hw Hd Hcap Hn Hlen Hpl p0.
-  destruct (run_in_space predict ops p0 _ (game0 w) w d (QS_start n w d kinds eps Hw Hd Hcap Hn Hlen Hpl)
-              (JI_start n w d kinds eps 0 ltac:(lia))) as [E|(p & outs & gs & g & E1 & E2 & Ex & _ & HJ)].
+  intros predict n w d kinds eps nspec ops Hw Hd Hcap Hn Hlen Hpl p0.
+  destruct (run_in_space predict ops p0 _ (game0 w) w d (QS_start n w d kinds eps nspec Hw Hd Hcap Hn Hlen Hpl)
+              (JI_start n w d kinds eps nspec ltac:(lia))) as [E|(p & outs & gs & g & E1 & E2 & Ex & _ & HJ)].
   - left. exact E.
   - right. exists p, outs, g. split; [exact E1|]. split; [exact E2|]. split; [exact Ex|apply (ji_frame _ _ _ HJ)].
 Qed.
